@@ -134,6 +134,22 @@ func Generate(r *rand.Rand, o Opts) *Project {
 		}
 		p.Pkgs = append(p.Pkgs, pk)
 	}
+	// a sibling main whose directory name extends another main's (cmd/m0 / cmd/m0x): a
+	// mainEntries selection of the shorter one must not select it
+	if !o.NoNestedMain && r.Intn(3) == 0 {
+		for _, pk := range p.Pkgs {
+			if pk.IsMain && pk.Dir != "." {
+				sm := &Pkg{Dir: pk.Dir + "x", Name: "main", IsMain: true}
+				for j := 0; j < nLibs; j++ {
+					if j != orphan && r.Intn(100) < 50 {
+						sm.Imports = append(sm.Imports, j)
+					}
+				}
+				p.Pkgs = append(p.Pkgs, sm)
+				break
+			}
+		}
+	}
 	// a main package nested below another main's directory (mainEntries selections must not
 	// match it by prefix)
 	if !o.NoNestedMain && r.Intn(3) == 0 {
@@ -160,6 +176,7 @@ func Generate(r *rand.Rand, o Opts) *Project {
 			f := &gen.File{Pkg: pk.Name, Name: fmt.Sprintf("f%d.go", fi), Helpers: fi == 0, IsMain: pk.IsMain && fi == 0}
 			if pk.IsMain && fi == 0 {
 				f.Name = "main.go"
+				f.MainMethod = r.Intn(4) == 0
 			}
 			if fi == 0 && !pk.IsMain && o.Asm && r.Intn(100) < 40 {
 				f.Asm = true
@@ -177,6 +194,11 @@ func Generate(r *rand.Rand, o Opts) *Project {
 				f.Funcs = append(f.Funcs, fn)
 			}
 			pk.Files = append(pk.Files, f)
+		}
+		// one main package in three has an entry file without any change of its own (it is then
+		// rewritten only for the service-start block and the import)
+		if pk.IsMain && r.Intn(3) == 0 {
+			pk.Files[0].Freeze()
 		}
 		_ = pi
 	}
@@ -243,6 +265,29 @@ func (p *Project) addShapes(r *rand.Rand) {
 			p.ExtraNew[filepath.Join(pk.Dir, "a_types.go")] = fmt.Sprintf("package %s\n\n// Rec is a record (changed comment).\ntype Rec struct {\n\tA int\n\tB string\n}\n", pk.Name)
 		}
 	}
+	// a changed Go file the go tool ignores by its name (leading underscore) but goat does not
+	if r.Intn(3) == 0 {
+		parked := func(k int) string {
+			return fmt.Sprintf("package l0\n\n// Parked is in a file the go tool skips.\nfunc Parked(a int) int {\n\ta += %d\n\treturn a\n}\n", k)
+		}
+		p.ExtraOld["pkg/l0/_parked.go"] = parked(1)
+		p.ExtraNew["pkg/l0/_parked.go"] = parked(2)
+	}
+	// hand-written code in a directory that may be configured as the tracking package path
+	// (internal/cov, package covpkg): unchanged between the revisions, never to be lost
+	if r.Intn(3) == 0 {
+		user := "package covpkg\n\n// UserNote is hand-written code living next to the generated file.\nfunc UserNote() int {\n\treturn 7\n}\n"
+		p.ExtraOld["internal/cov/zz_user.go"] = user
+		p.ExtraNew["internal/cov/zz_user.go"] = user
+	}
+	// a very long line (an embedded asset, > 64 KiB) after the last function of a changed file
+	if r.Intn(4) == 0 {
+		asset := func(k int) string {
+			return fmt.Sprintf("package l0\n\n// AssetLen uses the asset below.\nfunc AssetLen(a int) int {\n\ta += %d\n\treturn a + len(asset)\n}\n\nvar asset = %q\n", k, strings.Repeat("0123456789abcdef", 4400))
+		}
+		p.ExtraOld["pkg/l0/zz_asset.go"] = asset(1)
+		p.ExtraNew["pkg/l0/zz_asset.go"] = asset(2)
+	}
 	hello := func(k int) string {
 		return fmt.Sprintf("package hello\n\n// Hello is example code.\nfunc Hello(a int) int {\n\ta += %d\n\treturn a\n}\n", k)
 	}
@@ -291,6 +336,15 @@ func (p *Project) addDecoys(r *rand.Rand) {
 	both("ignoredirx/i.go", strings.Replace(o, "package ign", "package ignx", 1), strings.Replace(n, "package ign", "package ignx", 1))
 	o, n = changedGo("vendorx")
 	both("vendorx/v.go", o, n)
+	// renamed with a small edit across the eligibility boundary: out of an eligible directory into
+	// an ignored one (must stay untouched) and out of testdata into an eligible one (must be considered)
+	mv := func(pkg, fn string, k int) string {
+		return fmt.Sprintf("package %s\n\n// %s is moved between directories.\nfunc %s(a int) int {\n\ta++\n\ta += 11\n\ta += 12\n\ta += 13\n\ta += 14\n\ta += 15\n\ta += %d\n\treturn a\n}\n", pkg, fn, fn, k)
+	}
+	p.ExtraOld["pkg/l0/mv_out.go"] = mv("l0", "MvOut", 1)
+	p.ExtraNew["ignoredir/mv_out.go"] = mv("ign", "MvOut", 2)
+	p.ExtraOld["testdata/x/mv_in.go"] = mv("td", "MvIn", 1)
+	p.ExtraNew["pkg/l0/mv_in.go"] = mv("l0", "MvIn", 2)
 	both("README.md", "old\n", "new\n")
 	both("data.txt", "1\n", "2\n")
 	o, n = marked("l0")
